@@ -19,7 +19,7 @@ type TraitOf[V any] struct {
 func NewTraitOf[V any](config Config, options ...func(t *Trait)) *TraitOf[V] {
 	t := &TraitOf[V]{}
 
-	t.Trait = *NewTrait(config, options...)
+	t.Trait.init(config, options...)
 
 	return t
 }
